@@ -66,6 +66,7 @@ func NewAdversary(w *World, p *Profile) *Adversary {
 		{"corruptNested", 3, a.corruptNested},
 		{"reblock", 6, a.reblock},
 		{"wrapLen", 0, a.wrapLen},
+		{"goodNV", 4, a.goodNV},
 	}
 	for i := range a.strat {
 		if p.AdvWeights != nil {
@@ -1507,5 +1508,62 @@ func (a *Adversary) wrapLen(h uint64) bool {
 		lb.Message, lb.CommitMessage = protocol.LEANHELIX_CONTENT_MESSAGE_COMMIT_MESSAGE, protocol.CommitContentBuilderFromRaw(content)
 	}
 	a.sendRaw(b, n.Id, &interfaces.ConsensusRawMessage{Content: lb.Build().Raw()})
+	return true
+}
+
+// goodNV: a Byzantine leader of a view above 0 that holds genuine votes of quorum weight sends a *valid* NEW_VIEW (the
+// block of the highest valid proof among the votes, else a fresh good block) — so Byzantine-led views make progress too —
+// and, in half of the cases, first sends its own PREPARE for that view and block to the nodes that have not reached the view:
+// a PREPARE from the member at position (view mod n) of the PREPARE's view, which must never be counted, whatever view the
+// receiver is in.
+func (a *Adversary) goodNV(h uint64) bool {
+	v, leader, ok := a.byzLedView(h, 1)
+	if !ok {
+		return false
+	}
+	k := fmt.Sprintf("gnv|%d|%d", h, v)
+	if a.done[k] {
+		return false
+	}
+	c := a.w.Comm(h)
+	inst := uint64(spi.InstanceId)
+	votes := a.collectVotes(h, v, leader)
+	if !c.IsQuorum(voteIds(votes)) {
+		return false
+	}
+	a.done[k] = true
+	var lockHash []byte
+	var lockBlk *spi.Blk
+	lockV, have := uint64(0), false
+	for _, f := range a.w.Seen {
+		m := f.Msg
+		if m == nil || m.Env != ref.EnvVC || m.H != h || m.V != v || !f.Honest || f.To != leader || m.Vote.Proof == nil || m.Vote.Proof.PPRef == nil || m.Block == nil {
+			continue
+		}
+		if !ref.ProofValid(a.w.Keys, c, inst, h, v, m.Vote.Proof) {
+			continue
+		}
+		if !have || m.Vote.Proof.PPRef.V > lockV {
+			lockV, lockHash, lockBlk, have = m.Vote.Proof.PPRef.V, m.Vote.Proof.PPRef.Hash, m.Block, true
+		}
+	}
+	hash, blk := lockHash, lockBlk
+	if !have {
+		blk = a.newBlock(h, false)
+		hash = spi.HashOf(blk)
+	}
+	nodes := a.at(h)
+	if a.r.Intn(2) == 0 {
+		for _, n := range nodes {
+			if uint64(n.St.View()) < v {
+				a.w.Mon.Stats["adv PREPARE of a view's leader sent ahead of its NEW_VIEW"]++
+				a.send(leader, n.Id, a.mkRefMsg(ref.EnvP, ref.P, leader, inst, h, v, hash, nil))
+			}
+		}
+	}
+	nv := a.mkNV(leader, h, v, votes, hash, blk, v)
+	for _, n := range nodes {
+		a.send(leader, n.Id, nv)
+	}
 	return true
 }
